@@ -115,7 +115,7 @@ creadMM(FILE *fp, int *m, int *n, int_t *nonz,
    }
 
     if(expand)
-      new_nonz = 2 * *nonz - *n;
+      new_nonz = 2 * *nonz; /* upper bound: diagonal entries need not be present */
     else
       new_nonz = *nonz;
 
